@@ -62,6 +62,8 @@ def descriptions(inp):
     # B1alt: the same shape, names and URIs as B1, but every referenced file is another one (a cache keyed by payload
     # name, URI or description shape instead of content would serve B1's values)
     b1alt = json.loads(json.dumps(b1).replace(json.dumps(fw)[1:-1], json.dumps(os.path.join(inp, "other.bin"))[1:-1]))
+    # B1v: B1 under ANOTHER vendor, every class / component name unchanged (anything remembered per name alone would be B1's)
+    b1v = json.loads(json.dumps(b1).replace("nordicsemi.com", "acme-devices.example"))
     # B3alt: another hierarchy whose dependencies have OTHER names (state kept from an earlier hierarchical parse would show)
     radio = gen.child_env(seq=41, extra={"suit-integrated-payloads": {"#radio.bin": "0c0d"}})
     b3alt = gen.minimal(env={"suit-integrated-dependencies": {"#radio.suit": radio, "#app.suit": gen.child_env(seq=42)}})
@@ -83,7 +85,7 @@ def descriptions(inp):
     # P7: dependencies AND seven payloads on one level (extraction order = envelope order, whatever the string hashes are)
     p7 = gen.minimal(env={"suit-integrated-dependencies": {"#radio.suit": copy.deepcopy(radio)},
                           "suit-integrated-payloads": {f"#img_{c}.bin": ("%02x" % (i + 1)) * (i + 2) for i, c in enumerate("gcafbed")}})
-    return {"B0": b0, "B1": b1, "B2": b2, "B3": b3, "B1alt": b1alt, "B3alt": b3alt, "B9": b9, "child2": child2, "P7": p7, **hs}
+    return {"B0": b0, "B1": b1, "B2": b2, "B3": b3, "B1alt": b1alt, "B3alt": b3alt, "B9": b9, "child2": child2, "P7": p7, "B1v": b1v, **hs}
 
 
 def prepare(inp):
@@ -100,7 +102,7 @@ def prepare(inp):
     from suit_generator.input_output import InputOutputMixin
     with open(os.path.join(inp, "child2.suit"), "wb") as fh:
         fh.write(InputOutputMixin.prepare_suit_data(copy.deepcopy(ds["child2"])))
-    for n in ("B0", "B1", "B2", "B3", "B1alt", "B3alt", "B9", "P7", "H1", "H2", "H3"):
+    for n in ("B0", "B1", "B2", "B3", "B1alt", "B3alt", "B9", "P7", "H1", "H2", "H3", "B1v"):
         with open(os.path.join(inp, f"{n}.json"), "w", encoding="utf-8") as fh:
             json.dump(ds[n], fh)
         with open(os.path.join(inp, f"{n}.yaml"), "w", encoding="utf-8") as fh:
@@ -339,6 +341,7 @@ OPS["cache-envelope-many"] = op_cache_envelope_many
 for _k in (1, 2, 3):
     OPS[f"create-H{_k}-json"] = op_create(f"H{_k}", "json")
 OPS["create-B3alt-yaml"] = op_create("B3alt", "yaml")
+OPS["create-B1v-yaml"] = op_create("B1v", "yaml")
 OPS["sign-ed25519"] = op_sign_ed
 OPS["sign-es256"] = op_sign_es
 OPS["encrypt"] = op_encrypt
